@@ -116,7 +116,12 @@ def _eq_item(item1, item2):
         return item2 is None
     if item2 is None:
         return False
-    return item1 == item2
+    try:
+        return item1 == item2
+    except TypeError:
+        # The items are CIM objects of different kinds (e.g. a string value
+        # vs. an embedded instance value), whose __eq__() rejects each other.
+        return False
 
 
 def _eq_dict(dict1, dict2):
